@@ -5,11 +5,16 @@ Lines starting with `#` are comments. Exit code 0 always (the caller reads the s
 exit 2 on I/O or protocol errors.
 -/
 import Driver.Pure
+import Driver.Prov
 
 open Driver
 
 def evalLine (input : String) : Option String :=
-  evalPure (words input)
+  let ws := words input
+  match ws with
+  | "pw" :: _ => evalProv ws
+  | "pa" :: _ => evalProv ws
+  | _ => evalPure ws
 
 partial def loop (h : IO.FS.Stream) (n d bad : Nat) (lineNo : Nat) : IO (Nat × Nat × Nat) := do
   let line ← h.getLine
